@@ -439,3 +439,9 @@ O("C11.cmd_ical", ["C11", "C06"], "h_C11b.c", "h_C11_cmd_ical",
                   "cmd_ical_rpl": "recording contract (reply text not covered)", "add_chkpnt": "recording contract"},
   kind="bounded", bound="up to 3 instructions per request", unwind=6,
   solver=["minisat", "kissat"], timeout={"quick": 600, "thorough": 1800}, replay=False, replay_note="callees replaced by contracts")
+O("C11.cmd_http", "C11", "h_C11c.c", "h_C11_cmd_http",
+  "cmd_http (listing without a task filter) for every non-root requester, every uid named in the request path and every 4-slot queue: only the requester's own queue file is read, only his own tasks are listed, and all of them",
+  ["cmd_http"], dfcc=True, replace=["chkpntedp", "echs_http_send_sched"],
+  replace_status={"chkpntedp": "assumed false (no pending checkpoint)", "echs_http_send_sched": "recording contract (text not covered)"},
+  kind="bounded", bound="queue of 4 slots; requests without a tuid= filter", unwind=20,
+  solver=["minisat", "kissat"], timeout={"quick": 600, "thorough": 1800}, replay=False, replay_note="callees replaced by contracts, fault-injecting stubs")
